@@ -7,13 +7,14 @@ import TsRsVerif.Lemmas.UnfoldCheck
 # C02 — every inhabitant of the generated TypeScript type deserializes
 
 `Model/De.lean` is an acceptance model of serde's `Deserialize` (validated against the real `serde_json::from_str` on every
-candidate of every run). `C02_members_are_accepted` proves the property for the monomorphic, tagged fragment: a JSON value with
+candidate of every run). `C02_members_are_accepted` proves the property for the tagged fragment, generic items and their
+instantiations included (`Lemmas/DeInst.lean`: reading a value as `Name<A, B>` is reading it as the instance of the item, whose
+body is the generic body with the argument names substituted, and which is again in the fragment): a JSON value with
 distinct keys that inhabits the generated type is never rejected for its shape — the model accepts it, or rejects it only
 because of a LEAF (a number outside the Rust leaf type's range, a string that is not one character for `char`), which is what
 the statement's parenthesis excludes. The proof is a structural recursion on the membership derivation over every library type,
 struct shape and enum representation of the fragment (`Lemmas/DeComplete*.lean`). `C02_real_members_are_accepted` transports it
-to declarations with `#[ts(inline)]` through the unfolding theorem. Outside the fragment (generic instantiations, `untagged`,
-`flatten`) the check still feeds witnesses to the real Deserialize; `C02_kept_candidates_are_members` makes a rejection there a
+to declarations with `#[ts(inline)]` through the unfolding theorem. Outside the fragment (`untagged`, `flatten`) the check still feeds witnesses to the real Deserialize; `C02_kept_candidates_are_members` makes a rejection there a
 genuine counter-example.
 -/
 namespace TsRs
@@ -48,8 +49,7 @@ example : JVal.beqList (witnesses [] 24 10 (.union [.obj [({ name := "t".toList 
        .obj [("t".toList, .str "B".toList)]] = true := by decide +kernel
 
 open Tree De in
-/-- **every inhabitant is accepted (up to leaves)**: in a program of the fragment (`deFragB`: `Tree.fragB`, items without type
-parameters, no `untagged`, distinct variant keys, field types the acceptance model reads), for every type expression `t` over its
+/-- **every inhabitant is accepted (up to leaves)**: in a program of the fragment (`deFragB`: `Tree.fragB`, no `untagged`, distinct variant keys, field types the acceptance model reads), for every type expression `t` over its
 items and every JSON value `j` with distinct keys that inhabits the tree-level TypeScript type of `t`: for all sufficient fuel the
 acceptance model of serde's Deserialize gives rank 0 (accepted) or 1 (rejected for a number out of the leaf's range or a
 non-one-character `char` only) — never a missing property, an unknown tag, a wrong arm, a wrong tuple length or a wrong kind of value. -/
@@ -63,13 +63,12 @@ open Tree De in
 with its `#[ts(inline)]` marks): their members are members of the tree-level declarations (`unfold_same_values`), hence accepted -/
 theorem C02_real_members_are_accepted (cfg : Cfg) (env : Env) (hF : deFragB cfg env = true) (D' : Decls) (ufuel : Nat)
     (hw : wsdB (declsOf cfg env) = true) (hu : declsUnfB (declsOf cfg env) ufuel (declsOf cfg env) D' = true)
-    (id : Str) (it : Item) (j : JVal) (hfind : env.find id = some it) (hwj : wfJ j = true)
-    (m : Member D' (.ref (Derive.tsName it) []) j) :
-    ∃ f0, ∀ f, f0 ≤ f → accTy cfg env f (.named id []) j ≤ 1 := by
-  have m0 : Member (declsOf cfg env) (.ref (Derive.tsName it) []) j :=
+    (t : RTy) (T : Ts) (j : JVal) (hT : tyTs cfg env t = some T) (hok : tyOk cfg.limit t = true) (hwj : wfJ j = true)
+    (m : Member D' T j) :
+    ∃ f0, ∀ f, f0 ≤ f → accTy cfg env f t j ≤ 1 := by
+  have m0 : Member (declsOf cfg env) T j :=
     (unfold_same_values (wsdB_sound _ hw) (declsUnfB_sound _ D' ufuel hu) (unf_refl _ _) j).mpr m
-  refine C02_members_are_accepted cfg env hF (.named id []) _ j ?_ (by simp [tyOk]) hwj m0
-  simp [tyTs, Builtin.nameTyB, Builtin.nameTyBL, nameN, hfind]
+  exact C02_members_are_accepted cfg env hF t T j hT hok hwj m0
 
 /-! non-vacuity: a program of the fragment (a struct with an optional field and a map, an internally tagged enum), a member, rank 0 -/
 def exDeEnv : Env := [
@@ -79,7 +78,15 @@ def exDeEnv : Env := [
       { name := some "m".toList, ty := .map (.prim "u32") (.vec (.prim "bool")) }] },
   { isEnum := true, name := "E".toList, attr := { tag := some "t".toList }, variants := [
       { name := "A".toList, shape := .unit, fields := [] },
-      { name := "B".toList, shape := .named, fields := [{ name := some "p".toList, ty := .named "P".toList [] }] }] }]
+      { name := "B".toList, shape := .named, fields := [{ name := some "p".toList, ty := .named "P".toList [] }] }] },
+  -- a generic enum and a struct using two instances of it
+  { isEnum := true, name := "G".toList, generics := [{ name := "T".toList }], variants := [
+      { name := "N".toList, shape := .unit, fields := [] },
+      { name := "S".toList, shape := .tuple, fields := [{ name := none, ty := .param "T".toList }] },
+      { name := "L".toList, shape := .named, fields := [{ name := some "l".toList, ty := .vec (.param "T".toList) }] }] },
+  { isEnum := false, name := "U".toList, fields := [
+      { name := some "a".toList, ty := .named "G".toList [.prim "bool"] },
+      { name := some "b".toList, ty := .named "G".toList [.named "G".toList [.named "P".toList []]] }] }]
 def exDeCfg : Cfg := { ops := { isUpper := fun c => Case.isAsciiUpper c, isAlnum := fun _ => true, isNumeric := fun _ => false, strLower := id, strUpper := id } }
 def exDeJ : JVal := .obj [("t".toList, .str "B".toList), ("p".toList, .obj [("x".toList, .int 7), ("m".toList, .obj [("12".toList, .arr [.bool true])])])]
 
@@ -87,6 +94,13 @@ example : deFragB exDeCfg exDeEnv = true := by decide +kernel
 example : wfJ exDeJ = true ∧ tyOk exDeCfg.limit (.named "E".toList []) = true := by decide +kernel
 #guard memberb (Tree.declsOf exDeCfg exDeEnv) 20 (.ref "E".toList []) exDeJ
 #guard De.accTy exDeCfg exDeEnv 20 (.named "E".toList []) exDeJ == 0
+def exDeJ2 : JVal := .obj [("a".toList, .obj [("S".toList, .bool true)]),
+  ("b".toList, .obj [("L".toList, .obj [("l".toList, .arr [.str "N".toList, .obj [("S".toList, .obj [("x".toList, .int 1), ("m".toList, .obj [])])]])])])]
+example : wfJ exDeJ2 = true ∧ tyOk exDeCfg.limit (.named "U".toList []) = true := by decide +kernel
+#guard memberb (Tree.declsOf exDeCfg exDeEnv) 30 (.ref "U".toList []) exDeJ2
+#guard De.accTy exDeCfg exDeEnv 30 (.named "U".toList []) exDeJ2 == 0
+-- the instance decides: `G<bool>` does not read a number
+#guard De.accTy exDeCfg exDeEnv 30 (.named "G".toList [.prim "bool"]) (.obj [("S".toList, .int 1)]) == 3
 -- a wrong tag, a missing required property: rejected for their shape; `x: 300` only for the leaf
 #guard De.accTy exDeCfg exDeEnv 20 (.named "E".toList []) (.obj [("t".toList, .str "C".toList)]) == 3
 #guard De.accTy exDeCfg exDeEnv 20 (.named "P".toList []) (.obj [("x".toList, .int 7)]) == 3
